@@ -572,7 +572,7 @@ class Assembler:
                     self.functions.append({'function': fnname, 'file': spec['file'],
                                            'sha256': hashlib.sha256(item.text().encode()).hexdigest(),
                                            'item_index': idx,
-                                           'has_contract': bool(spec.get('requires') or spec.get('ensures') or spec.get('loop'))})
+                                           'has_contract': bool(spec.get('requires') or spec.get('ensures') or spec.get('loop')) and FnParts(item).k_body_open is not None})
             for a in spec.get('attrs', []):
                 ed.insert(item.start, a + '\n', order=-3)
             if item.kind in ('const', 'static'):
